@@ -17,7 +17,7 @@ pub fn spec() -> PropSpec {
     PropSpec {
         id: "C15",
         level: "exploration",
-        rule: "(a) generated table contents (0..16 rows injected, one table in thirteen with 60..300 rows, key values drawn from small pools so that ties, blanks, negatives and sub-unit differences such as 52.3 vs 52.7 occur) x -o given as 0..3 strings over the key letters s a A v V N S W E d D c plus noise letters, printed by Planes::print: the printed addresses are exactly the table's keys, each once, and the column of the last recognised key letter is monotone over the rows where it is not blank (ascending for s and a, descending for A, either direction for the others; ties in any order); without a recognised letter the rows are in ascending address order. (b) generated frame streams for several aircraft through the real reader with a refresh per frame: every refresh lists every aircraft heard so far exactly once and the key column read from the printed cells (s, a, A, v, V) is monotone. Non-trivial = >= 3 rows with >= 2 distinct non-blank key values and >= 1 tie or blank; distinct by hash",
+        rule: "(a) generated table contents (0..16 rows injected, one table in thirteen with 60..300 rows, key values drawn from small pools so that ties, blanks, negatives and sub-unit differences such as 52.3 vs 52.7 occur) x -o given as 0..6 values (the last one sometimes repeating an earlier one) over the key letters s a A v V N S W E d D c plus noise letters, printed by Planes::print: the printed addresses are exactly the table's keys, each once, and the column of the last recognised key letter is monotone over the rows where it is not blank (ascending for s and a, descending for A, either direction for the others; ties in any order); without a recognised letter the rows are in ascending address order. (b) generated frame streams for several aircraft through the real reader with a refresh per frame: every refresh lists every aircraft heard so far exactly once and the key column read from the printed cells (s, a, A, v, V) is monotone. Non-trivial = >= 3 rows with >= 2 distinct non-blank key values and >= 1 tie or blank; distinct by hash",
         assumptions: &["the letter C (category descending) is implemented but not named by the property and is not generated", "blank keys may appear anywhere in the order"],
         workers: 16,
         also_nochk: false,
@@ -62,7 +62,17 @@ fn pooled_rows() -> BoxedStrategy<Vec<RowSpec>> {
 
 fn order_strategy() -> BoxedStrategy<Vec<String>> {
     let s = prop_oneof![4 => "[saAvVNSWEdDc]{1,3}", 1 => "[saAvVNSWEdDcxyz1]{1,4}", 1 => "[xyz1B]{0,2}"];
-    proptest::collection::vec(s, 0..3).boxed()
+    // up to five -o values; now and then the last value repeats an earlier one
+    (proptest::collection::vec(s, 0..6), prop::bool::weighted(0.2), any::<prop::sample::Index>())
+        .prop_map(|(mut v, repeat, ix)| {
+            if repeat && v.len() >= 2 {
+                let k = ix.index(v.len() - 1);
+                let x = v[k].clone();
+                v.push(x);
+            }
+            v
+        })
+        .boxed()
 }
 
 fn last_key(o: &[String]) -> Option<char> {
